@@ -45,7 +45,7 @@ def model(tier):
     return tlagen.mc_module("MC", "NoLookahead", defs), tlagen.cfg(defs, plain, invariants=inv), inv, n
 
 
-def model_markov(tier):
+def model_markov(tier, markov=True):
     """repeated and abandoned episodes on one environment with a Markovian transmitter: episodes of a requested length
     starting at a drawn position, followed by further episodes that step through the earlier starting point"""
     n = 4
@@ -55,7 +55,7 @@ def model_markov(tier):
         cs = candidates(n)
     defs = {
         "Grid": list(G[:n]), "Cand": cs, "Mandatory": set(range(1, n + 1)), "Lats": {0, L},
-        "Folds": tlagen.Raw("{<<0, 2000000000>>}"), "Modes": tlagen.Raw("{[markov |-> TRUE, warmup |-> -1]}"),
+        "Folds": tlagen.Raw("{<<0, 2000000000>>}"), "Modes": tlagen.Raw("{[markov |-> %s, warmup |-> -1]}" % ("TRUE" if markov else "FALSE")),
         "Delays": {0}, "EpLens": {0}, "ResetLens": {0, 2}, "Spaces": {"box"}, "Bads": tlagen.Raw('{[at |-> 0, cls |-> "ok"]}'),
         "Cuts": set(G[1: n - 1]),
     }
@@ -229,6 +229,11 @@ def c02(tier, seed):
                                set(CLAUSE_PROPS), inv, [], chunk=100)
     module, cfg, inv, n = model_markov(tier)
     explore.explore_and_replay(rep, "pairs-markov-episodes", module, cfg, ("harness.nolook_check", "replay_chunk"), {"maxcalls": n, "min_resets": 2},
+                               set(CLAUSE_PROPS), inv, [], chunk=100)
+    # the same with the default (non-Markovian) transmitter: a later episode starting further down the data replays the history
+    # up to its first timestep - and nothing stamped after it - whatever the environment iterated through before
+    module, cfg, inv, n = model_markov(tier, markov=False)
+    explore.explore_and_replay(rep, "pairs-episodes", module, cfg, ("harness.nolook_check", "replay_chunk"), {"maxcalls": n, "min_resets": 2},
                                set(CLAUSE_PROPS), inv, [], chunk=100)
     module, cfg, inv, n, tick = model_subsecond(tier)
     explore.explore_and_replay(rep, "pairs-subsecond", module, cfg, ("harness.nolook_check", "replay_chunk"),
